@@ -46,7 +46,21 @@ func readOps(e *v1x.Env, universe [][]byte, c *fw.Ctx) []fop {
 	}
 	rng := c.Rng
 	vs := e.M.Versions()
-	pickV := func() int64 { return vs[rng.Intn(len(vs))] }
+	// versions whose root entry is a reference to the root of an earlier version (commits without
+	// writes) are read through one more storage read; they are picked half of the time when present
+	var refVs []int64
+	for _, v := range vs {
+		if r := e.R.Roots[v]; r != nil && r.Version != v {
+			refVs = append(refVs, v)
+		}
+	}
+	pickV := func() int64 {
+		if len(refVs) > 0 && rng.Intn(2) == 0 {
+			c.Obs("reads_of_versions_with_reference_roots", 1)
+			return refVs[rng.Intn(len(refVs))]
+		}
+		return vs[rng.Intn(len(vs))]
+	}
 	probes := v1x.Probes(universe, e.M.Vers[e.M.Latest])
 	pickK := func() []byte { return probes[rng.Intn(len(probes))] }
 	add := func(name string, run func(t *iavl.MutableTree) (string, error)) {
@@ -179,9 +193,15 @@ func readOps(e *v1x.Env, universe [][]byte, c *fw.Ctx) []fop {
 		nodes, err := exportStream(it, false)
 		return streamStr(nodes) + fmt.Sprint(len(nodes)), err
 	})
+	// the traversal starts at a random retained version: the version before the start is read in a
+	// different way (its absence is legal) than the versions inside the range
+	tscStart := int64(0)
+	if rng.Intn(3) != 0 {
+		tscStart = pickV() + 1
+	}
 	add("TraverseStateChanges", func(t *iavl.MutableTree) (string, error) {
 		var b strings.Builder
-		err := t.TraverseStateChanges(0, e.M.Latest+1, func(ver int64, cs *iavl.ChangeSet) error {
+		err := t.TraverseStateChanges(tscStart, e.M.Latest+1, func(ver int64, cs *iavl.ChangeSet) error {
 			fmt.Fprintf(&b, "v%d:%s|", ver, csStr(csFromIavl(cs)))
 			return nil
 		})
@@ -506,7 +526,7 @@ func init() {
 					}
 				}
 				hist := e.Tail(25)
-				if isWrite && out.Err == nil && !out.Expect.Fail && !out.Expect.Noop && !(op.Kind == "save" && out.Expect.Existing) && c.Rng.Intn(3) == 0 {
+				if isWrite && out.Err == nil && !out.Expect.Fail && !out.Expect.Noop && !(op.Kind == "save" && out.Expect.Existing) && (c.Rng.Intn(3) == 0 || op.Kind != "save") {
 					f := &fop{name: map[string]string{"save": "SaveVersion", "delto": "DeleteVersionsTo", "lfo": "LoadVersionForOverwriting"}[op.Kind], write: true, pending: pend, old: old, new: captureState(e), kind: op.Kind}
 					n := op.N
 					switch op.Kind {
@@ -527,11 +547,21 @@ func init() {
 					rb, _ := seam.Dump(e.W.Inner)
 					ops := readOps(e, pl.Universe, c)
 					c.Rng.Shuffle(len(ops), func(a, b int) { ops[a], ops[b] = ops[b], ops[a] })
+					// the change-set traversal touches the root entry of every version: always probed
+					for k := range ops {
+						if ops[k].name == "TraverseStateChanges" {
+							ops[0], ops[k] = ops[k], ops[0]
+						}
+					}
 					if len(ops) > 14 {
 						ops = ops[:14]
 					}
 					for k := range ops {
-						probeOp(c, rb, e.Cfg, &ops[k], pl.Universe, hist, 0, capF)
+						cf := capF
+						if ops[k].name == "TraverseStateChanges" {
+							cf = 400
+						}
+						probeOp(c, rb, e.Cfg, &ops[k], pl.Universe, hist, 0, cf)
 					}
 				}
 				c.State(e.AbstractState())
